@@ -11,13 +11,15 @@
    free_system (every ODE d y/d v = R moved to w = R, new ODE d y/d n = w / cf, every reference to d y/d v replaced by w):
    C06_input_free_spec_equiv.  NOT PROVED (hence "_partial"): that the imperative fold of Model/ConvertVar.v reaches
    free_system up to the order of the equations -- the interpreter evaluates exactly that, and the premises of the
-   theorem, on every correspondence case (free_spec_code) -- and the closure under sequences; both are tied by the
-   correspondence check and decided by the numeric oracle.
+   theorem, on every correspondence case (free_spec_code); it is tied by the correspondence check and decided by the
+   numeric oracle.  CLOSURE UNDER SEQUENCES is proved (C06_sequence_equiv_partial) for histories in which no step is an
+   INPUT conversion of the free variable: the premises of every step are one boolean (step_ok) that the interpreter
+   evaluates before every conversion of every correspondence case.
    The syntactic premises (fresh_var / fresh_atom / NoDup of left-hand sides) say that the next variable indices are
    new and no variable is defined twice; the interpreter evaluates them on every correspondence case (premises_hold). *)
 From Coq Require Import List ZArith QArith Bool Reals Qreals.
 From Coq Require Import Permutation.
-From Verif Require Import Sexp UnitAlg UnitAlgP Expr Eval ModelSM ConvertVar C06EvalP C06P C06ShapeP C06ReplaceP C06StateP C06FreeP C06MainP.
+From Verif Require Import Sexp UnitAlg UnitAlgP Expr Eval ModelSM ConvertVar C06EvalP C06P C06ShapeP C06ReplaceP C06StateP C06FreeP C06MainP C06SeqP.
 Import ListNotations.
 Open Scope R_scope.
 
@@ -60,6 +62,28 @@ Theorem C06_input_state_equiv_partial : forall fsem psem csem,
      Sat fsem psem csem nu (updd dl v t (nu (S n))) (ceqs s) /\ nu n = nu v * k /\ dl n t = nu (S n) * k).
 Proof. exact input_state_conversion. Qed.
 Print Assumptions C06_input_state_equiv_partial.
+
+(* ANY SEQUENCE of conversions (OUTPUT of anything, INPUT of constants, computed variables and states), each succeeding and
+   meeting step_ok in the state it is applied to (or returning the variable itself: nothing to convert): every solution of the original system extends to a solution of the final
+   system that gives every original variable (and every derivative atom of an original variable) the same value, and
+   every solution of the final system is -- with the very same values of all variables -- a solution of the original one. *)
+Theorem C06_sequence_equiv_partial : forall fsem psem csem,
+  (forall x, x <> 0 -> psem x (Q2R (-1 # 1)) = Some (/ x)) ->
+  forall s s'', Steps s s'' ->
+  (forall nu dl, Sat fsem psem csem nu dl (ceqs s) -> exists nu' dl', Sat fsem psem csem nu' dl' (ceqs s'') /\
+     (forall i, (i < length (cvars s))%nat -> nu' i = nu i) /\
+     (forall y t, (y < length (cvars s))%nat -> dl' y t = dl y t)) /\
+  (forall nu dl, Sat fsem psem csem nu dl (ceqs s'') -> exists dl0, Sat fsem psem csem nu dl0 (ceqs s)).
+Proof. exact sequence_equiv. Qed.
+Print Assumptions C06_sequence_equiv_partial.
+
+(* what step_ok demands, spelled out (it is a computable predicate of the state before the step) *)
+Theorem C06_step_ok_meaning : forall s v d, step_ok s v d = true ->
+  premises_hold s = true /\ (v < length (cvars s))%nat /\
+  (d = DInput -> (forall t, free_var s = Some t -> t <> v) /\
+                 (forall ode, ode_def s v = Some ode -> var_def s v = None)).
+Proof. exact step_ok_meaning. Qed.
+Print Assumptions C06_step_ok_meaning.
 
 (* _replace_references_to_derivatives is, up to the order of the equations, substitution in the equations that mention
    the old derivative *)
